@@ -10,24 +10,21 @@ N: | ||psi|| - 1 | and | <H> - E0 | <= 1e-9 after the call (purely imaginary dt,
 import numpy as np
 
 from .. import common, sweepgen
-from ..parallel import validate_chunks
+from ..parallel import validate_chunks, pmap
 
 INV = ['WellPosed', 'TimeOK', 'TimeOK2', 'Symmetric', 'RecordOK', 'LastLocalOK', 'LastLocalOK2', 'FinalCanon']
 
 
 def sweep_models(ctx, algs):
-    for alg in algs:
-        for L in ([1, 2, 3, 4, 5, 6] if alg == 'tdvp1' else [2, 3, 4, 5, 6]):
-            for n in ([1, 2] if ctx.quick else [1, 2, 3]):
-                if ctx.quick and L in (5,) and n == 2:
-                    continue
-                ctx.model('Sweep', f'm_{alg}_L{L}_n{n}', constants=dict(L=L, NSTEPS=n, Alg=f'"{alg}"', Bug='"none"'), invariants=INV,
-                          workers=1, coverage=(L == 4 and n == 1))
-    negs = [('skip_envl', 'tdvp1', 'WellPosed'), ('skip_envr', 'tdvp1', 'WellPosed'), ('half_full', 'tdvp1', 'TimeOK'), ('bond_plus', 'tdvp1', 'TimeOK')]
+    algset = '{' + ','.join(f'"{a}"' for a in algs) + '}'
+    ctx.model('Sweep', 'm_programs', constants=dict(LMAX=ctx.pick(6, 8), NMAX=ctx.pick(2, 3), ALGS=algset, Bug='"none"'), invariants=INV,
+              coverage=True, timeout=1800)
+    negs = [('skip_envl', 'tdvp1', 'WellPosed'), ('skip_envr', 'tdvp1', 'WellPosed'), ('half_full', 'tdvp1', 'TimeOK'), ('bond_plus', 'tdvp1', 'TimeOK'),
+            ('skip_envl', 'dmrg1', 'WellPosed')]
     for bug, alg, inv in negs:
         if alg in algs:
-            ctx.model('Sweep', f'm_neg_{bug}', constants=dict(L=4, NSTEPS=2, Alg=f'"{alg}"', Bug=f'"{bug}"'), invariants=[inv],
-                      workers=1, expect_violation=inv)
+            ctx.model('Sweep', f'm_neg_{bug}_{alg}', constants=dict(LMAX=4, NMAX=2, ALGS=f'{{"{alg}"}}', Bug=f'"{bug}"'), invariants=[inv],
+                      expect_violation=inv)
 
 
 def gen_case(rng, quick):
@@ -40,7 +37,8 @@ def gen_case(rng, quick):
                 dtabs=float(rng.choice([0.01, 0.05, 0.2])), seed=int(rng.integers(1 << 30)))
 
 
-def record(ptn, c):
+def record(c):
+    ptn = common.import_repo()
     rng = np.random.default_rng(c['seed'])
     try:
         H = sweepgen.make_hamiltonian(ptn, rng, c['L'], c['kind'])
@@ -64,8 +62,8 @@ def run(ctx):
     ctx.assumptions += ['kernel contract of the Hermitian Krylov exponential (checked as C15)', 'mode-N bounds 1e-9',
                         'site indices / environment lists / outer dt are read from the caller frame of the wrapped helpers']
     sweep_models(ctx, ['tdvp1', 'tdvp2'])
-    cases = [ctx.replay['replay']['case']] if ctx.replay is not None else [gen_case(rng, ctx.quick) for _ in range(ctx.pick(140, 4000))]
-    traces = [record(ptn, c) for c in cases]
+    cases = [ctx.replay['replay']['case']] if ctx.replay is not None else [gen_case(rng, ctx.quick) for _ in range(ctx.pick(400, 4000))]
+    traces = pmap(record, cases)
     for c, tr in zip(cases, traces):
         ctx.count(c, nontrivial=c['maxD'] > 1 and c['L'] > 1)
     ctx.notes['local_problems_observed'] = sum(1 for tr in traces for r in tr if r['ev'] == 'local')
